@@ -107,6 +107,10 @@ def c12(c):
         r = c.tlc_exhaustive('Writer', 'Writer', 'writer_live.cfg', workers=8, timeout=2400)
         c.log('Writer liveness (FairSpec): %d distinct states' % r['distinct'])
     binp = c.go_build('writer')
+    # close-with-flush vs a write in flight (probe of the "drain + write is one step under the writer mutex" assumption)
+    pr = c.harness(c.go_build('limits'), 'closeflush', {'n': 3 if c.tier == 'quick' else 10}, timeout=120)
+    c.absorb(pr)
+    c.cov['close_flush_probes'] = pr['completed']
     # 2. S: simulated operation sequences of the ring replayed into internal/queue
     nb = 150 if quick else 1500
     s = c.tlc('Writer', 'RingSim', 'ring_sim.cfg', simulate=nb, depth=50, timeout=900)
